@@ -93,7 +93,7 @@ class LiquidError(Exception):
         return self._error_context(self.token.source, self.token.start)
 
     def _error_context(self, text: str, index: int) -> tuple[int, int, str, str, str]:
-        lines = text.splitlines(keepends=True)
+        lines = text.splitlines(keepends=True) or [""]
         cumulative_length = 0
         target_line_index = -1
 
@@ -104,7 +104,8 @@ class LiquidError(Exception):
                 break
 
         if target_line_index == -1:
-            raise ValueError("index is out of bounds for the given string")
+            # An index at (or beyond) the end of input belongs to the last line.
+            target_line_index = len(lines) - 1
 
         # Line number (1-based)
         line_number = target_line_index + 1
